@@ -189,6 +189,54 @@ static void c4_case(uint64_t idx, void *vctx)
 }
 
 
+/* ---------------- the edges of the 16.16 coordinate range ----------------
+ * Small scales with translations that put the samples within a pixel of +-32768, for EVERY filter enumerator (the footprint the
+ * range check assumes depends on the filter).  One-row destinations whose row ends (or starts) at a PROT_NONE page: a scanline
+ * routine that walks further than the request faults; so does a fetch that turns the wrapped coordinate into an address. */
+static void limit_case(uint64_t idx, void *vctx)
+{
+    (void)vctx;
+    static const pixman_filter_t FILT[7] = { PIXMAN_FILTER_NEAREST, PIXMAN_FILTER_FAST, PIXMAN_FILTER_BILINEAR, PIXMAN_FILTER_GOOD, PIXMAN_FILTER_BEST, PIXMAN_FILTER_CONVOLUTION, PIXMAN_FILTER_SEPARABLE_CONVOLUTION };
+    static const int32_t SC[8] = { 0x100, 0x1000, 0x4000, 0x8000, F1, 0x20000, -0x100, -F1 };
+    static const int32_t TL[15] = { 0x7fff0000 - 0x18000, 0x7fff0000 - 0x8000, 0x7fff0000 - 1, 0x7fff0000, 0x7fff7fff, 0x7fff8000, 0x7fff8001, 0x7ffffeff, 0x7fffffff,
+                                    (int32_t)0x80000000, (int32_t)0x80000001, (int32_t)0x80007fff, (int32_t)0x80008000, (int32_t)0x80010000, (int32_t)0x80018000 };
+    static const pixman_format_code_t sfm[3] = { PIXMAN_a8r8g8b8, PIXMAN_r5g6b5, PIXMAN_a8 };
+    static const int ssz[2][2] = { { 16, 4 }, { 3, 2 } };
+    int dims[7] = { 4, 3, 15, 8, 7, 3, 2 }, d[7];
+    vf_decode(idx, dims, 7, d);
+    int rep = d[0], axis = d[1], fil = d[4];
+    static const pixman_repeat_t reps[4] = { PIXMAN_REPEAT_NONE, PIXMAN_REPEAT_NORMAL, PIXMAN_REPEAT_PAD, PIXMAN_REPEAT_REFLECT };
+    gimg_t im = make_guarded(sfm[d[5]], ssz[d[6]][0], ssz[d[6]][1], 0, (int)(idx & 1), idx + 3);
+    pixman_transform_t t; memset(&t, 0, sizeof t);
+    t.matrix[0][0] = axis != 1 ? SC[d[3]] : F1; t.matrix[1][1] = axis != 0 ? SC[d[3]] : F1; t.matrix[2][2] = F1;
+    t.matrix[0][2] = axis != 1 ? TL[d[2]] : 0; t.matrix[1][2] = axis != 0 ? TL[d[2]] : 0;
+    pixman_image_set_transform(im.img, &t);
+    if (fil < 5) pixman_image_set_filter(im.img, FILT[fil], NULL, 0); else set_filter(im.img, fil == 5 ? 2 : 4);
+    pixman_image_set_repeat(im.img, reps[rep]);
+    pixman_color_t white = { 0xffff, 0x8000, 0x4000, 0xc000 };
+    pixman_image_t *solid = pixman_image_create_solid_fill(&white);
+    static const pixman_format_code_t dfm[2] = { PIXMAN_a8r8g8b8, PIXMAN_r5g6b5 };
+    static const int LC[4] = { PH_CFG_DEFAULT, PH_CFG_SSSE3 | PH_CFG_SSE2, PH_CFG_GENERAL, PH_CFG_WHOLEOPS };
+    uint64_t h = 0, n = 0;
+    for (int di = 0; di < 2; di++) for (int pl = 0; pl < 2; pl++) {
+        gimg_t dd = make_guarded(dfm[di], 8, 1, 0, pl, 91);
+        for (int ci = 0; ci < 4; ci++) {
+            ph_set_cfg(LC[ci]);
+            for (int oi = 0; oi < 2; oi++) {
+                pixman_image_composite32(oi ? PIXMAN_OP_OVER : PIXMAN_OP_SRC, im.img, NULL, dd.img, 0, 0, 0, 0, 0, 0, 8, 1);
+                pixman_image_composite32(oi ? PIXMAN_OP_OVER : PIXMAN_OP_SRC, solid, im.img, dd.img, 0, 0, 0, 0, 0, 0, 8, 1);
+                n += 2;
+            }
+        }
+        h = vf_mix(h, vf_hash64(dd.g.lo, dd.g.size, 5));
+        free_guarded(&dd);
+    }
+    vf_count_libcalls(n);
+    pixman_image_unref(solid); free_guarded(&im);
+    vf_count_eval(1); vf_count_nontrivial(1);
+    if (!vf_in_confirm) vf_outcome(h);
+}
+
 /* ---------------- same-shape copies between views of larger buffers ----------------
  * Source and destination have the same format, width, height and a stride LARGER than a row, and each is a view whose last row
  * ends exactly at a PROT_NONE page (the bytes between rows belong to a parent image, the bytes after the last row do not exist).
@@ -380,12 +428,14 @@ int main(int argc, char **argv)
     uint64_t nfull = th ? (uint64_t)4 * 6 * NXF * 3 * 5 * NSF : (uint64_t)4 * 4 * NXF * 2 * 3 * NSF;
     vf_space_run("composite-transformed-sources", nfull, c4_case, &c);
     vf_space_run("trapezoid-entry-points", th ? (uint64_t)NTY * NTY * NTX * NTX * NTX * 3 * 5 : (uint64_t)9 * 9 * 7 * 7 * 7 * 3 * 2, trap_case, th ? &c : NULL);
+    vf_space_run("coordinate-range-edges", (uint64_t)4 * 3 * 15 * 8 * 7 * 3 * 2, limit_case, NULL);
     vf_space_run("same-shape-copies-between-views", (uint64_t)6 * 4 * 3 * NCFG_LIST * 2, copy_case, NULL);
     vf_space_run("glyph-positions", (uint64_t)14 * 14 * 3 * 2 * 3, glyph_case, NULL);
     vf_space_run("create-bits-sizes", 9 * 9 * 6, create_case, NULL);
-    static char b[300];
+    static char b[700];
     snprintf(b, sizeof b, "%d source formats x %s sizes x %s stride modes x alternating guard-page placement x %d transforms x %d filters x 4 repeats x 6 requests x %d ops x %d cfgs x %d destination formats; "
-             "trapezoids %dx%d y x %d^3 x values x 3 depths x %d offsets; same-shape copies between padded views (6 formats x 4 sizes x 3 ops x 6 cfgs); glyphs 14x14 positions; create_bits 9x9 sizes x 6 formats", NSF, th ? "5 of 6" : "3 of 6", th ? "3" : "2 of 3", NXF, th ? 6 : 4,
+             "trapezoids %dx%d y x %d^3 x values x 3 depths x %d offsets; same-shape copies between padded views (6 formats x 4 sizes x 3 ops x 6 cfgs); glyphs 14x14 positions; create_bits 9x9 sizes x 6 formats; coordinate-range edges: 7 filters (NEAREST, FAST, BILINEAR, GOOD, BEST, convolution, separable) x 8 scales (1/256..2, negative) x "
+             "15 translations within 1.5 pixels of +-32768 x axis x/y/both x 4 repeats x 3 source formats x 2 sizes x 4 cfgs x SRC/OVER x source/mask role onto one-row destinations ending / starting at a guard page", NSF, th ? "5 of 6" : "3 of 6", th ? "3" : "2 of 3", NXF, th ? 6 : 4,
              th ? 3 : 2, th ? 6 : 4, th ? 2 : 1, th ? NTY : 9, th ? NTY : 9, th ? NTX : 7, th ? 5 : 2);
     vf_bounds = b;
     snprintf(vf->extra_json, sizeof vf->extra_json, "\"arithmetic_traps_observed\": %llu, \"arithmetic_traps_note\": \"SIGFPE (INT_MIN / -1 in pixman_edge_init for edges spanning the whole 16.16 y range) is a crash but not an out-of-bounds access; counted, not judged\"", (unsigned long long)*fpe_count);
